@@ -24,7 +24,7 @@ extern "C" int __lsan_do_recoverable_leak_check();
 using namespace vh;
 
 namespace {
-struct Tally { long long decomposed_parts = 0, extension_sets = 0, refused = 0, mirror_requests = 0, unit_names_read = 0, exact_fills = 0, threshold = 0, factory_calls = 0, strings = 0, string_bytes = 0, pools = 0, printed_bytes = 0, units = 0, regions = 0, steps = 0; };
+struct Tally { long long tall_tables = 0, tallest_table = 0, decomposed_parts = 0, extension_sets = 0, refused = 0, mirror_requests = 0, unit_names_read = 0, exact_fills = 0, threshold = 0, factory_calls = 0, strings = 0, string_bytes = 0, pools = 0, printed_bytes = 0, units = 0, regions = 0, steps = 0; };
 
 // the workload of one Lexicon life; everything it allocates dies with this scope
 // the Lexicon of every ordinary life is built in this one storage slot (the address a constructor may have remembered)
@@ -217,6 +217,43 @@ void exact_fill_life(std::uint64_t seed, int variant, Tally& T)
    ++T.exact_fills;
 }
 
+// A Lexicon ONE of whose tables grows very large (hundreds of thousands of entries) with its keys arriving in strictly descending,
+// strictly ascending or organ-pipe order of what the table sorts by (operand addresses / spellings): the tallest and the most
+// lopsided trees the unification tables can become.  Destroyed like any other: every node of the table is returned.
+void tall_table_life(std::uint64_t seed, int variant, long long entries, Tally& T)
+{
+   Rng rng(seed);
+   impl::Lexicon lex; impl::Translation_unit unit { lex };
+   const int order = variant % 3, table = (variant / 3) % 3;
+   auto arrange = [&](auto& v) {                // ascending as built; descending; organ pipe
+      std::sort(v.begin(), v.end());
+      if (order == 1) std::reverse(v.begin(), v.end());
+      else if (order == 2) { auto w = v; std::size_t lo = 0, hi = w.size(); for (std::size_t i = 0; i < w.size(); ++i) v[i] = (i % 2 == 0) ? w[lo++] : w[--hi]; }
+   };
+   if (table == 0) {                            // pointer types over place-holder types, by pointee address
+      std::vector<const Type*> ts; ts.reserve(std::size_t(entries));
+      for (long long i = 0; i < entries; ++i) ts.push_back(&lex.get_auto());
+      arrange(ts);
+      for (auto t : ts) lex.get_pointer(*t);
+   } else if (table == 1) {                     // identifiers, by spelling
+      std::vector<std::string> ws; ws.reserve(std::size_t(entries));
+      char buf[16];
+      for (long long i = 0; i < entries; ++i) { std::snprintf(buf, sizeof buf, "t%09lld", i); ws.emplace_back(buf); }
+      arrange(ws);
+      for (auto& w : ws) lex.get_identifier(widen(w));
+      T.strings += entries;
+   } else {                                     // one scope's overload sets, by name address
+      std::vector<const Name*> ns; ns.reserve(std::size_t(entries / 4));
+      char buf[16];
+      for (long long i = 0; i < entries / 4; ++i) { std::snprintf(buf, sizeof buf, "s%09lld", i); ns.push_back(&lex.get_identifier(widen(std::string(buf)))); }
+      arrange(ns);
+      auto* holder = lex.make_namespace(*unit.global_region());
+      const Lexicon& L = lex;
+      for (auto n : ns) holder->body.scope.make_var(*n, L.int_type());
+   }
+   T.factory_calls += 2 * entries; ++T.tall_tables; T.tallest_table = std::max(T.tallest_table, table == 2 ? entries / 4 : entries);
+}
+
 // keys for the leak report blocks this process has written so far (log_path=$VERIF_OUTDIR/san.<pid>)
 std::vector<std::pair<std::string, std::string>> leak_keys(std::size_t& consumed)
 {
@@ -263,13 +300,15 @@ static void body(Ctx& C)
       for (auto& [k, text] : ks) C.viol("leak:" + k, "LeakSanitizer: memory allocated on behalf of a Lexicon is still allocated after its destruction (" + k + ")", J().s("report", text).str());
    }
 #endif
+   const long long tall_entries = valgrind_mode ? 20000 : (C.thorough ? 700000 : 300000);
    for (int i = 0; i < lives; ++i) {
       const std::uint64_t seed = seeds.next();
       const int flavour = i;
 #if VH_HAVE_ASAN
       const std::size_t b0 = __sanitizer_get_current_allocated_bytes();
 #endif
-      if (flavour % 5 == 4) two_overlapping_lives(seed, T); else if (flavour % 7 == 6) exact_fill_life(seed, flavour / 7, T); else one_life(seed, flavour, T);      // (nothing of the harness's own is allocated between the two readings)
+      if (flavour == 2) tall_table_life(seed, C.worker + (C.thorough ? int(seed % 9) : 0), tall_entries, T);
+      else if (flavour % 5 == 4) two_overlapping_lives(seed, T); else if (flavour % 7 == 6) exact_fill_life(seed, flavour / 7, T); else one_life(seed, flavour, T);      // (nothing of the harness's own is allocated between the two readings)
 #if VH_HAVE_ASAN
       const std::size_t b1 = __sanitizer_get_current_allocated_bytes();
       const int leaked = __lsan_do_recoverable_leak_check();
@@ -294,9 +333,9 @@ static void body(Ctx& C)
       if (C.total_viols >= 12 && i >= 3) { C.count("stopped_early_after_repeated_violations"); break; }
    }
    C.count("factory_calls", T.factory_calls); C.count("strings_interned", T.strings); C.count("string_bytes", T.string_bytes); C.count("string_pools_at_destruction", T.pools);
-   C.count("printed_bytes", T.printed_bytes); C.count("extra_units_and_module_units", T.units); C.count("nested_regions", T.regions); C.count("program_steps", T.steps); C.count("strings_at_allocator_threshold_lengths", T.threshold); C.count("lives_filling_string_pools_exactly", T.exact_fills); C.count("unit_names_read", T.unit_names_read); C.count("mirror_requests_at_both_ends_of_a_life", T.mirror_requests); C.count("requests_refused_during_a_life", T.refused); C.count("specifier_and_qualifier_sets_with_extension_coordinates_decomposed_or_printed", T.extension_sets); C.count("names_obtained_by_decomposition", T.decomposed_parts);
+   C.count("printed_bytes", T.printed_bytes); C.count("extra_units_and_module_units", T.units); C.count("nested_regions", T.regions); C.count("program_steps", T.steps); C.count("strings_at_allocator_threshold_lengths", T.threshold); C.count("lives_filling_string_pools_exactly", T.exact_fills); C.count("unit_names_read", T.unit_names_read); C.count("mirror_requests_at_both_ends_of_a_life", T.mirror_requests); C.count("requests_refused_during_a_life", T.refused); C.count("lives_with_one_very_large_table", T.tall_tables); C.maxi("largest_single_table_destroyed", T.tallest_table); C.count("specifier_and_qualifier_sets_with_extension_coordinates_decomposed_or_printed", T.extension_sets); C.count("names_obtained_by_decomposition", T.decomposed_parts);
    for (auto k : { "lexicon_lives", "factory_calls", "strings_interned", "string_pools_at_destruction", "printed_bytes", "extra_units_and_module_units", "nested_regions", "program_steps" }) C.need(k);
-   C.need("overlapping_lexicon_pairs"); C.need("lives_filling_string_pools_exactly"); C.need("unit_names_read"); C.need("mirror_requests_at_both_ends_of_a_life"); C.need("requests_refused_during_a_life"); C.need("specifier_and_qualifier_sets_with_extension_coordinates_decomposed_or_printed");
+   C.need("overlapping_lexicon_pairs"); C.need("lives_filling_string_pools_exactly"); C.need("unit_names_read"); C.need("mirror_requests_at_both_ends_of_a_life"); C.need("requests_refused_during_a_life"); C.need("lives_with_one_very_large_table"); C.need("specifier_and_qualifier_sets_with_extension_coordinates_decomposed_or_printed");
    if (!valgrind_mode) { C.need("byte_accounting_checks"); C.need("lsan_checks"); }
 }
 
